@@ -19,7 +19,7 @@ pub fn prop() -> Prop {
         check,
         quick_runs: 24_000,
         both_profiles: false,
-        rule: "a run = 1-3 aircraft flying ground-truth trajectories (start points stratified by run index over all 59 NL zones, both sides of each of the 58 transition latitudes at 50 m..2 km, equator, +/-86.9 deg, antimeridian, Greenwich, exact CPR-zero points; <= 300 m displacement between position frames) emitting TC 9-18 squitters of alternating parity interleaved with their other formats and other aircraft; per-aircraft gaps from a mixture weighted on {9, 9.999, 9.999999, 10, 10.000001, 10.001, 11} s; channel drops, duplicates and reorders frames; -U on/off; observer strings with and without blanks; in 8 % of the runs the wall clock is set back once or twice (also between the two frames of a pair); non-trivial = at least one valid pair was decoded and one frame arrived without a valid pair; distinct = distinct scripts",
+        rule: "a run = 1-3 aircraft flying ground-truth trajectories (start points stratified by run index over all 59 NL zones, both sides of each of the 58 transition latitudes at 50 m..2 km, equator, +/-86.9 deg, antimeridian, Greenwich, exact CPR-zero points; <= 300 m displacement between position frames) emitting TC 9-18 squitters of alternating parity interleaved with their other formats and other aircraft; per-aircraft gaps from a mixture weighted on {9, 9.999, 9.999999, 10, 10.000001, 10.001, 11} s; channel drops, duplicates and reorders frames; -U on/off; observer strings with and without blanks; in 8 % of the runs the wall clock is set back once or twice (also between the two frames of a pair); runs may begin after a long uptime or seconds before a midnight / month end / new year / 2^31 s; aircraft may jump; non-trivial = at least one valid pair was decoded and one frame arrived without a valid pair; distinct = distinct scripts",
         level_text: "seeded two-message-protocol simulation with an exact 10 s deadline on the discrete-event clock; oracle: reference pairing state machine + textbook global CPR decode with NL from its defining formula, 20 m tolerance against the encoded ground truth, haversine distance, position fields untouched by every frame that does not complete a valid pair",
     }
 }
@@ -164,6 +164,7 @@ fn gen(rng: &mut Rng, idx: u64, tier: Tier) -> Case {
     for (dtm, b, tg) in delayed { lines.push(((dtm - prev).max(0), b, tg)); prev = prev.max(dtm); }
     gen::clock_steps_back(rng, &mut lines, 0.08);
     gen::long_uptime(rng, &mut lines, 0.03);
+    gen::near_time_boundary(rng, &mut lines, 0.06);
     let ch = *rng.pick(&[Chunking::Line, Chunking::Line, Chunking::Line, Chunking::Pieces]);
     let mut script = Script::file(args, vec![]);
     script.tcp = rng.chance(0.25);
